@@ -56,7 +56,7 @@ pub fn run_sharded(def: &PropDef, tier: Tier) -> RunResult {
         Tier::Thorough => def.cap_s.1,
     };
     let exe = std::env::current_exe().expect("current_exe");
-    let tmpdir = format!("/verif/target/vcheck-tmp/{}-{}", def.id, std::process::id());
+    let tmpdir = format!("{}/target/vcheck-tmp/{}-{}", super::root(), def.id, std::process::id());
     let _ = std::fs::create_dir_all(&tmpdir);
     let mut merged = ShardOut::default();
     let mut crashes = Vec::new();
